@@ -353,9 +353,9 @@ def run(tier, seed):
     jobs += [("small", t) for t in small]
     jobs += [("relop", t) for t in gen_terms("relop", chk)]
     jobs += [("rules", t) for t in gen_terms("rules", chk)]
-    jobs += [("random", t) for t in gen_terms("random", chk, nrandom=1500 if quick else 40000, maxdepth=4 if quick else 5, seed=seed + 7)]
+    jobs += [("random", t) for t in gen_terms("random", chk, nrandom=1500 if quick else 20000, maxdepth=4 if quick else 5, seed=seed + 7)]
     jobs += [("ext", t) for t in gen_terms("ext", chk)]
-    jobs += [("extrandom", t) for t in gen_terms("extrandom", chk, nrandom=600 if quick else 12000, maxdepth=3 if quick else 4, seed=seed + 11)]
+    jobs += [("extrandom", t) for t in gen_terms("extrandom", chk, nrandom=600 if quick else 6000, maxdepth=3 if quick else 4, seed=seed + 11)]
     tys = [("float", "float64"), ("float32", "float32"), ("float64", "float64")]
     variants = ["rewrite", "rewrite", "numpy+rewrite", "rewrite", "twice", "cpp+rewrite"]
     nbuild = 0
